@@ -75,6 +75,30 @@ def origins_agree(a, b, ma=None, mb=None) -> bool:
     return True
 
 
+class _Agreeable:
+    def __eq__(self, other):
+        return True
+
+    def __ne__(self, other):
+        return False
+
+    __hash__ = None
+
+
+_AGREEABLE = _Agreeable()
+
+
+class _Handle:
+    """a non-node handle that compares equal to whatever carries the same id"""
+    def __init__(self, id_):
+        self.id = id_
+
+    def __eq__(self, other):
+        return getattr(other, "id", None) == self.id
+
+    __hash__ = None
+
+
 def cases(rng: random.Random, tier: str):
     n = 250 if tier == "quick" else 6000
     for _ in range(n):
@@ -143,6 +167,10 @@ def cases(rng: random.Random, tier: str):
                 oracle = "== is not reflexive"
             elif (a == 5) or (a == None) or (a == "x") or not (a != 5):  # noqa: E711
                 oracle = "comparison with a non-node is not False"
+            elif (a == _AGREEABLE) or not (a != _AGREEABLE) or (a == _Handle(a.id)) or not (a != _Handle(a.id)):
+                # a non-node whose own __eq__ would say yes (a handle comparing by id, unittest.mock.ANY):
+                # "comparing with a non-node is False" — the node decides, it does not defer to the other operand
+                oracle = "comparison with a non-node (that has a permissive __eq__) is not False"
             elif hash(a) != h0 or hash(a) != hash(a):
                 oracle = "hash changed"
         except Exception as e:  # noqa
